@@ -132,8 +132,8 @@ def check_invariant(ctx, F):
                 if e['kind'] != 'literal' or e['adt'] != CURSOR:
                     continue
                 fn = e['fnames']
-                pos_t = e['vals'][fn.index('pos')]
-                buf_t = e['vals'][fn.index('buf')]
+                pos_t = rules.inline_pure(F, e['vals'][fn.index('pos')], depth=2)
+                buf_t = rules.inline_pure(F, e['vals'][fn.index('buf')], depth=2)
                 d = rules.path_dbm(r, extra=extra, upto=e['npreds'])
                 ok = d.entails_le(pos_t, sym.mk_len(buf_t))
                 k = e['span'].split('-')[0]
@@ -426,6 +426,29 @@ def check_cells(ctx, F, cells):
 
 # ---------------------------------------------------------------- clause 4: seek
 
+def resolve_self_trait_calls(F, b, t):
+    """a call of a backend trait method on `self` resolves to the impl for the very self type of body b (or the provided method)"""
+    def f(n_):
+        if n_ and n_[0] == 'call' and n_[3] is None and isinstance(n_[1], str) and n_[1].startswith('backends::') and n_[2] and n_[2][0] in (('in', (1, 'deref')), ('arg', 1)):
+            tr, meth = n_[1].rsplit('::', 1)
+            cands = [x for x in F.bodies if x.promoted is None and x.name == meth and x.impl_trait == tr and x.impl_self is not None and b.impl_self is not None and F.ty_s(x.impl_self) == F.ty_s(b.impl_self)]
+            if len(cands) == 1:
+                _, pp = rules.evaluate(cands[0])
+                r1 = single_return(pp or [])
+                if r1 is not None and not any(e['kind'] == 'call' and e.get('uid') is not None for e in r1.events):
+                    return r1.ret
+            elif not cands:
+                # provided method of the trait (e.g. is_full = space_left() == 0)
+                prov = [x for x in F.bodies if x.promoted is None and x.name == meth and x.trait == tr and x.impl is None]
+                if len(prov) == 1:
+                    _, pp = rules.evaluate(prov[0])
+                    r1 = single_return(pp or [])
+                    if r1 is not None:
+                        return r1.ret
+        return None
+    return effects.rebuild(t, f)
+
+
 def check_seek(ctx, F):
     seeks = rules.impl_bodies(F, 'Seek', 'seek')
     n = 0
@@ -491,7 +514,12 @@ def check_seek(ctx, F):
             pev, pp = rules.evaluate(posfn[0])
             pr = single_return(pp) if pp else None
             want = ('in', (1, 'deref', POS)) if adt == CURSOR else sym.mk_len(('in', (1, 'deref')))
-            if pr is None or pr.ret != want:
+            got = pr.ret if pr is not None else None
+            for _ in range(3):
+                if got is None or got == want:
+                    break
+                got = resolve_self_trait_calls(F, posfn[0], rules.inline_pure(F, got))
+            if got is None or got != want:
                 bad = 'pos() does not return the quantity that seek establishes (returns %s)' % (sym.show(pr.ret) if pr else '?')
         if bad:
             ctx.bad('R6', role, b.defpath, bad, loc=rules.loc(b), key=key)
@@ -615,27 +643,7 @@ def check_maybe_full_sources(ctx, F):
             continue
         answer = rm.ret
 
-        def resolve(t):
-            # a call of a trait method on `self` resolves to the impl for this very self type
-            def f(n_):
-                if n_ and n_[0] == 'call' and n_[3] is None and isinstance(n_[1], str) and n_[1].startswith('backends::') and n_[2] and n_[2][0] in (('in', (1, 'deref')), ('arg', 1)):
-                    tr, meth = n_[1].rsplit('::', 1)
-                    cands = [x for x in F.bodies if x.promoted is None and x.name == meth and x.impl_trait == tr and x.impl_self is not None and b.impl_self is not None and F.ty_s(x.impl_self) == F.ty_s(b.impl_self)]
-                    if len(cands) == 1:
-                        _, pp = rules.evaluate(cands[0])
-                        r1 = single_return(pp or [])
-                        if r1 is not None and not any(e['kind'] == 'call' and e.get('uid') is not None for e in r1.events):
-                            return r1.ret
-                    elif not cands:
-                        # provided method of the trait (e.g. is_full = space_left() == 0)
-                        prov = [x for x in F.bodies if x.promoted is None and x.name == meth and x.trait == tr and x.impl is None]
-                        if len(prov) == 1:
-                            _, pp = rules.evaluate(prov[0])
-                            r1 = single_return(pp or [])
-                            if r1 is not None:
-                                return r1.ret
-                return None
-            return effects.rebuild(t, f)
+        resolve = lambda t: resolve_self_trait_calls(F, b, t)
         for _ in range(4):
             answer = resolve(rules.inline_pure(F, answer))
         bad = None
@@ -918,9 +926,14 @@ def check_sticky_and_delegation(ctx, F):
         ev, paths = rules.evaluate(bs[0])
         r = single_return(paths) if paths else None
         ok = False
+        isq = lambda o: o[0] == 'call' and o[1] == trait + '::' + q
         if r is not None and r.ret[0] == 'bin' and r.ret[1] == 'Eq':
             ops = (r.ret[2], r.ret[3])
-            ok = sym.mk_int(0) in ops and any(o[0] == 'call' and o[1] == trait + '::' + q for o in ops)
+            ok = sym.mk_int(0) in ops and any(isq(o) for o in ops)
+        elif r is not None and r.ret[0] == 'bin' and r.ret[1] in ('Lt', 'Le', 'Gt', 'Ge'):
+            # the same test on an unsigned count: q() < 1, q() <= 0, 1 > q(), 0 >= q()
+            op, a, c = r.ret[1], r.ret[2], r.ret[3]
+            ok = (op == 'Lt' and isq(a) and c == sym.mk_int(1)) or (op == 'Le' and isq(a) and c == sym.mk_int(0)) or (op == 'Gt' and isq(c) and a == sym.mk_int(1)) or (op == 'Ge' and isq(c) and a == sym.mk_int(0))
         (ctx.ok if ok else ctx.bad)('R4', 'provided query method is `%s() == 0`' % q, trait + '::' + meth,
                                     'default body returns %s' % (sym.show(r.ret) if r else '?'), key=key)
 
